@@ -322,7 +322,7 @@ static void streamReaders(Dec &d, Case &c, const Bytes &stream) {
     for (int v = 0; v < 3 && !c.fail; v++) {
         size_t bs = bufSizes[v]; if (bs < 2) bs = 2;
         for (int rd = 0; rd < 3 && !c.fail; rd++) {
-            HeapBuf ob(bs); size_t consumed = 0; KSI_FTLV ft; memset(&ft, 0, sizeof ft); int res; long after = -1;
+            HeapBuf ob(bs); if (v == 1) memset(ob.p, 0, bs); /* callers commonly hand in a zeroed buffer: octets that were never read must not be taken for header octets */ size_t consumed = 0; KSI_FTLV ft; memset(&ft, 0, sizeof ft); int res; long after = -1;
             if (rd == 0) {
                 if (stream.empty()) continue;
                 HeapBuf in(stream); FILE *f = fmemopen(in.p, in.n, "rb"); if (!f) continue;
